@@ -90,6 +90,11 @@ func suiteProxy(r *rng, n int) {
 		case 2:
 			rewrites = []string{"/api/*:/v2/$1", "/v2/users:/people"}
 		}
+		if cr.chance(15) {
+			// a value with a dollar sign inside is a literal (only a value that STARTS with $ names an environment variable)
+			reqH = append(reqH, "X-Tok:to$ken"+itoa(int64(cr.intn(9))))
+			respH = append(respH, "X-Price:5$USD")
+		}
 		if cr.chance(50) {
 			reqH = append(reqH, "X-Via:pike")
 			if cr.chance(40) {
@@ -259,6 +264,10 @@ func proxyHfpConditionalHistory() {
 		do(http.Header{})       // 1: uncacheable -> the key becomes hit-for-pass
 		w2 := do(hdr)           // 2: conditional / range client
 		w3 := do(http.Header{}) // 3: plain client
+		// the range client's 206 keeps the upstream's Content-Range
+		if hdr.Get("Range") != "" && w2.Code == 206 && w2.Header().Get("Content-Range") != fmt.Sprintf("bytes 0-4/%d", len(originBody)) {
+			w2.Code = 2060 // reported as a changed answer
+		}
 		out = append(out, itoa(int64(w2.Code)), itoa(int64(w3.Code)), b2s(w3.Body.String() == originBody), hx(w3.Header().Get("X-Status")))
 	}
 	emit(append([]string{"proxy", "hfpseq"}, out...)...)
